@@ -631,3 +631,36 @@ Definition ostep (reenter : bool) (t : opc) (s : osh) : opc * osh :=
   | ODone => (t, s)
   end.
 Definition oinit : osh := {| o_lock := false; o_closed := false; o_ran := 0 |}.
+
+(* ------------------------------------------------------------------------------------------------ *)
+(* P. CopyWithControl: the batched traffic counter on every exit path                                *)
+(* ------------------------------------------------------------------------------------------------ *)
+(* bridge_forward.go CopyWithControl: every delivered chunk is added to a local batch, the batch to the shared counter when
+   it reaches the threshold; what is left is flushed when the loop ends.  Flush sites: `ctx_flush` = the explicit
+   counter.Add in the `<-b.Ctx().Done()` branch, `tail_flush` = the flush after the loop (every `break` path), `defer_flush`
+   = a deferred flush on every return.  Repository: ctx_flush && tail_flush && not defer_flush. *)
+Record cpst := { cp_counter : N; cp_batch : N; cp_total : N }.
+Definition cp_chunk (threshold : N) (s : cpst) (n : N) : cpst :=
+  let b := (cp_batch s + n)%N in
+  if (threshold <=? b)%N then {| cp_counter := (cp_counter s + b)%N; cp_batch := 0; cp_total := (cp_total s + n)%N |}
+  else {| cp_counter := cp_counter s; cp_batch := b; cp_total := (cp_total s + n)%N |}.
+Definition cp_exit (ctx_flush tail_flush defer_flush : bool) (via_ctx : bool) (s : cpst) : cpst :=
+  let once := if via_ctx then ctx_flush else tail_flush in
+  let k := ((if once then 1 else 0) + (if defer_flush then 1 else 0))%N in
+  {| cp_counter := (cp_counter s + k * cp_batch s)%N; cp_batch := cp_batch s; cp_total := cp_total s |}.
+Definition cp_run (ctx_flush tail_flush defer_flush : bool) (threshold : N) (chunks : list N) (via_ctx : bool) : cpst :=
+  cp_exit ctx_flush tail_flush defer_flush via_ctx
+          (fold_left (cp_chunk threshold) chunks {| cp_counter := 0; cp_batch := 0; cp_total := 0 |}).
+
+(* ------------------------------------------------------------------------------------------------ *)
+(* Q. the connection slot of the mapping handler: released by the tunnel's OnClosed or by the deferred failure path *)
+(* ------------------------------------------------------------------------------------------------ *)
+(* client/mapping/base.go handleConnection: releaseSlot := func() { releaseOnce.Do(func() { activeConnCount.Add(-1) }) }
+   (`once = true`, the repository) is called by the tunnel's OnClosed closure and by the deferred failure path (Start failed
+   because a close landed between RegisterTunnel and Start) — possibly both.  `once = false`: the plain decrement. *)
+Record qslot := { qs_active : Z; qs_once : bool }.
+Definition qrelease (once : bool) (t : bool) (s : qslot) : bool * qslot :=
+  if t then (t, s)                                                   (* this caller has already released *)
+  else (true, if once then (if qs_once s then s else {| qs_active := (qs_active s - 1)%Z; qs_once := true |})
+              else {| qs_active := (qs_active s - 1)%Z; qs_once := qs_once s |}).
+Definition qsinit : qslot := {| qs_active := 1; qs_once := false |}.
